@@ -5,7 +5,8 @@ import re
 
 import corpus
 
-SCALARS = ["5", "-1", "0", "1.5", "true", "null", "[]", "{}", "[1, 2]", "{a: 1}", "''", "x", "nope.thing", "~",
+SCALARS = ["[targetClass]", "[count]", "[a, b, propertyConstraints]", "[message, targetClass, x]", "[validation]",
+           "[if, then, else]", "[count, validation, count]", "[propertyConstraints]", "[profile]", "[x, targetClass]", "5", "-1", "0", "1.5", "true", "null", "[]", "{}", "[1, 2]", "{a: 1}", "''", "x", "nope.thing", "~",
            "99999999999999999999", "'a.b / / c.d'", "\"\\u0000\"", "!!binary aGk=", "&a x", "*a"]
 KEYS = ["minCount", "maxCount", "exactCount", "minLength", "maxLength", "pattern", "in", "containsAll", "containsSome",
         "nested", "atLeast", "atMost", "count", "validation", "lessThanProperty", "equalsToProperty", "datatype",
@@ -24,7 +25,7 @@ def mutate_yaml(text, rnd):
     if not idx:
         return rnd.choice(SCALARS)
     i = rnd.choice(idx)
-    op = rnd.randrange(14)
+    op = rnd.randrange(16)
     l = lines[i]
     ind = len(l) - len(l.lstrip())
     if op == 0:
@@ -57,6 +58,13 @@ def mutate_yaml(text, rnd):
         lines[i], lines[j] = lines[j], lines[i]
     elif op == 10:
         lines.insert(i + 1, " " * (ind + 2) + rnd.choice(KEYS) + ": " + rnd.choice(SCALARS))
+    elif op in (14, 15) and l.rstrip().endswith(":"):
+        # a block (mapping) replaced by a flow sequence / scalar naming some of the keys a mapping would hold
+        j = i + 1
+        while j < len(lines) and (not lines[j].strip() or len(lines[j]) - len(lines[j].lstrip()) > ind):
+            j += 1
+        del lines[i + 1:j]
+        lines[i] = l.rstrip() + " " + rnd.choice(SCALARS[:10] + ["[]", "{}", "~", "x"])
     elif op == 11:
         cut = rnd.randrange(len(text) + 1)
         return text[:cut]
